@@ -510,6 +510,9 @@ func (s *ServiceConfig) initEndpoints() error {
 		for ip := range inputParams {
 			inputSet[inputParams[ip]] = nil
 		}
+		if a, b, ok := ambiguousParams(inputParams); ok {
+			return &AmbiguousParamsError{Path: e.Endpoint, Method: e.Method, Params: [2]string{a, b}}
+		}
 
 		e.Endpoint = s.uriParser.GetEndpointPath(e.Endpoint, inputParams)
 
@@ -663,6 +666,21 @@ func (s *ServiceConfig) initBackendURLMappings(e, b int, inputParams map[string]
 	return nil
 }
 
+// ambiguousParams reports two different path params that the routers expose to the backends
+// under the same key (the key is the param name with its first character capitalised)
+func ambiguousParams(params []string) (string, string, bool) {
+	title := cases.Title(language.Und)
+	seen := make(map[string]string, len(params))
+	for _, p := range params {
+		key := title.String(p[:1]) + p[1:]
+		if q, ok := seen[key]; ok && q != p {
+			return q, p, true
+		}
+		seen[key] = p
+	}
+	return "", "", false
+}
+
 func fromSetToSortedSlice(set map[string]interface{}) []string {
 	res := make([]string, 0, len(set))
 	for element := range set {
@@ -758,6 +776,23 @@ type EndpointPathError struct {
 // Error returns a string representation of the EndpointPathError
 func (e *EndpointPathError) Error() string {
 	return "ignoring the '" + e.Method + " " + e.Path + "' endpoint, since it is invalid!!!"
+}
+
+// AmbiguousParamsError is the error returned by the configuration init process when two path params
+// of an endpoint differ only in the case of their first character: the backends would receive both
+// under the same key and one of the values would be lost
+type AmbiguousParamsError struct {
+	Path   string
+	Method string
+	Params [2]string
+}
+
+// Error returns a string representation of the AmbiguousParamsError
+func (a *AmbiguousParamsError) Error() string {
+	return fmt.Sprintf(
+		"ignoring the '%s %s' endpoint, since its params '%s' and '%s' differ only in the case of their first character",
+		a.Method, a.Path, a.Params[0], a.Params[1],
+	)
 }
 
 // UndefinedOutputParamError is the error returned by the configuration init process when an output
